@@ -100,17 +100,38 @@ def roundtrip_statement : Prop :=
     marshal env name v = .ok bz → unmarshal env name bz = some v
 
 /-- **round trip on the wire-format core**: for every registered struct type and every
-value built from primitives (uvarint / zig-zag / plain varint, fixed32/64, bool, string,
-byte slice, byte array) and structs nested to any depth through non-pointer and pointer
-fields, with amino's zero-value omission:
+value built from
+* primitives (uvarint / zig-zag / plain varint, fixed32/64, bool, string, byte slice, byte array),
+* structs nested to any depth through non-pointer and pointer fields, with amino's
+  zero-value omission and field-order checks,
+* PACKED lists of non-ByteLength primitives (one length-prefixed block) and UNPACKED lists
+  (one `key value` per element, ended by a larger field number) of strings, byte slices,
+  byte arrays, structs and struct pointers, including amino's `0x00` empty-element marker,
 `UnmarshalReflect(MarshalReflect(v)) = v`, with the decoder's own fuel.
-NOT covered by this theorem (checked by correspondence only): lists (packed / unpacked /
-nested), interfaces (Any), time / duration, AminoMarshaler reprs, `write_empty`. -/
+NOT covered by this theorem (checked by correspondence only): lists nested in lists (the
+implicit-struct wrapping), `nil_elements`, raw-byte element lists, interfaces (Any),
+time / duration, AminoMarshaler reprs, `write_empty`, registered non-struct top-level types. -/
 theorem roundtrip_partial (env : Env) (hE : envOK env) (name : Bytes) (v : Val) (d : Nat)
     (hwf : wf env d (.ref name) v = true) (hd : d ≤ env.length + 4) (bz : Bytes)
     (hm : marshal env name v = .ok bz) (hlen : bz.length < 2 ^ 64) :
     unmarshal env name bz = some v :=
   roundtrip_struct env hE name v d hwf hd bz hm hlen
+
+/-- a struct with a packed list, an unpacked list of strings (one of them empty) and an
+unpacked list of struct pointers (one of them an empty struct). -/
+def nLists : Bytes := [76]
+def envL : Env := envW ++ [
+  ⟨nLists, [], .struct [fld 1 (.list false false (.svar 64)), fld 2 (.list false false .str),
+      fld 3 (.list true false (.ref nPartSetHeader)), fld 4 (.uvar 64)] []⟩]
+def vLists : Val := .struct [.list [.i 1, .i (-1), .i 300], .list [.x [97], .x [], .x [98, 99]],
+  .list [.struct [.i 5, .x [1]], .struct [.i 0, .x []]], .u 7]
+
+example : envOK envL ∧ wf envL 2 (.ref nLists) vLists = true ∧
+    marshal envL nLists vLists = .ok [0x0a, 4, 2, 1, 0xd8, 4, 0x12, 1, 97, 0x12, 0, 0x12, 2, 98, 99,
+      0x1a, 5, 8, 10, 0x12, 1, 1, 0x1a, 0, 0x20, 7] ∧
+    unmarshal envL nLists [0x0a, 4, 2, 1, 0xd8, 4, 0x12, 1, 97, 0x12, 0, 0x12, 2, 98, 99,
+      0x1a, 5, 8, 10, 0x12, 1, 1, 0x1a, 0, 0x20, 7] = some vLists :=
+  ⟨envOK_of_b (by decide +kernel), by decide +kernel, by decide +kernel, by decide +kernel⟩
 
 /-- the hypotheses are satisfiable by a non-trivial value: a `tm.BlockID` with a
 nested `PartSetHeader`, one omitted (zero) field and three present ones. -/
@@ -136,7 +157,7 @@ theorem omitted_value_is_zero (env : Env) (v : Val) (d : Nat) (td : TD) (bs : By
     (hwf : wf env d td v = true) (he : enc env td v 0 false false = .ok bs)
     (hom : isDefault env td v = true ∨ bs = [0]) (hlen : bs.length < 2 ^ 64) (k : Nat) (hk : d ≤ k) :
     v = zeroVal env k td :=
-  zero_val env v d td bs hwf he hom hlen k hk
+  zero_val env v d td bs 0 hwf he hom hlen k hk
 
 /-! ## the codec: rejection -/
 
